@@ -36,6 +36,13 @@ pub fn build_tx_world(rng: &mut StdRng, pow: &str, main_len: usize, forks: usize
 
 /// One full round of honest traffic: announcements, proofs, filter ticks and answers, block download.
 pub fn pump(sim: &mut Sim, env: &mut Env, rng: &mut StdRng, interval: u64) {
+    pump_opt(sim, env, rng, interval, true)
+}
+
+/// `advance = false`: the round takes no time (all ticks fire well inside every timeout).  Used by the
+/// convergence phases: the world is finite, so the peers cannot keep announcing new blocks, and a peer whose
+/// last state stays the same for too long is (rightly) disconnected and cannot be proven again.
+pub fn pump_opt(sim: &mut Sim, env: &mut Env, rng: &mut StdRng, interval: u64, advance: bool) {
     let n = env.peers.len();
     for i in 0..n {
         if !env.peers[i].connected {
@@ -57,7 +64,9 @@ pub fn pump(sim: &mut Sim, env: &mut Env, rng: &mut StdRng, interval: u64) {
     }
     env.idle_tick(sim);
     drain(sim, env, rng, interval);
-    sim.advance(1);
+    if advance {
+        sim.advance(1);
+    }
     env.refresh(sim);
     let dropped = sim.last_drops.clone();
     for i in 0..n {
@@ -285,6 +294,9 @@ fn sync_scenario(rng: &mut StdRng, sc: usize, out: Box<dyn std::io::Write>, kv: 
         ep.server.hashes_batch = rng.gen_range(2..=8);
         ep.server.cp_batch = rng.gen_range(2..=6);
     }
+    if nleaf >= 6 {
+        env.set_reserve(&sim, 2);
+    }
     sim.reset(json!({"mode": "sync"}));
     // register scripts
     let nscripts = sim.chain.scripts.len();
@@ -305,14 +317,24 @@ fn sync_scenario(rng: &mut StdRng, sc: usize, out: Box<dyn std::io::Write>, kv: 
         }
         pump(&mut sim, &mut env, rng, interval);
     }
+    env.reserve = 0;
+    let bans0 = env.bans;
+    // every session starts afresh (what the time-outs do to sessions that wait for an announcement that a
+    // world without new blocks never makes), then the peers announce blocks the client does not know yet
+    for i in 0..npeers {
+        if env.peers[i].connected {
+            env.disconnect(&mut sim, i);
+        }
+    }
     for i in 0..npeers {
         env.grow(&sim, i, u64::MAX / 2);
     }
     for _ in 0..(main_len / 2 + 8) {
-        pump(&mut sim, &mut env, rng, interval);
+        pump_opt(&mut sim, &mut env, rng, interval, false);
     }
     let tips_now: Vec<usize> = env.peers.iter().map(|p| p.server.tip + 1).collect();
-    sim.step("Quiescent", json!({"tips": tips_now, "bans": 0}), |_| Ok(()));
+    let must = sim.panics.is_empty() && env.bans == bans0;
+    sim.step("Quiescent", json!({"tips": tips_now, "bans": env.bans - bans0, "must": must}), |_| Ok(()));
     let lines = sim.lines;
     let panics = sim.panics.clone();
     let out = std::mem::replace(&mut sim.out, Box::new(std::io::sink()));
@@ -505,6 +527,9 @@ fn rand_scenario(rng: &mut StdRng, sc: usize, out: Box<dyn std::io::Write>, kv: 
         ep.server.cp_batch = rng.gen_range(2..=6);
         ep.server.v1 = rng.gen_bool(0.7);
     }
+    if nleaf >= 6 {
+        env.set_reserve(&sim, 2);
+    }
     sim.reset(json!({"mode": profile}));
     let nscripts = sim.chain.scripts.len();
     let rand_list = |rng: &mut StdRng, maxn: u64, allow_empty: bool| -> Vec<(usize, bool, u64)> {
@@ -673,6 +698,15 @@ fn rand_scenario(rng: &mut StdRng, sc: usize, out: Box<dyn std::io::Write>, kv: 
         }
     }
     // convergence with honest peers
+    env.reserve = 0;
+    let bans0 = env.bans;
+    // every session starts afresh (what the time-outs do to sessions that wait for an announcement that a
+    // world without new blocks never makes), then the peers announce blocks the client does not know yet
+    for i in 0..npeers {
+        if env.peers[i].connected {
+            env.disconnect(&mut sim, i);
+        }
+    }
     for i in 0..npeers {
         env.grow(&sim, i, u64::MAX / 2);
     }
@@ -683,14 +717,15 @@ fn rand_scenario(rng: &mut StdRng, sc: usize, out: Box<dyn std::io::Write>, kv: 
     }
     let rounds = sim.chain.blocks.len() / 2 + 10;
     for _ in 0..rounds {
-        pump(&mut sim, &mut env, rng, interval);
+        pump_opt(&mut sim, &mut env, rng, interval, false);
         env.fetch_tick(&mut sim);
         for i in 0..npeers {
             while env.peers[i].connected && env.answer_txs_proof(&mut sim, i) {}
         }
     }
     let tips_now: Vec<usize> = env.peers.iter().map(|p| p.server.tip + 1).collect();
-    sim.step("Quiescent", json!({"tips": tips_now, "bans": 0}), |_| Ok(()));
+    let must = sim.panics.is_empty() && env.bans == bans0;
+    sim.step("Quiescent", json!({"tips": tips_now, "bans": env.bans - bans0, "must": must}), |_| Ok(()));
     let lines = sim.lines;
     let panics = sim.panics.clone();
     let out = std::mem::replace(&mut sim.out, Box::new(std::io::sink()));
@@ -769,16 +804,18 @@ fn fork_scenario(rng: &mut StdRng, sc: usize, out: Box<dyn std::io::Write>, kv: 
         ep.server.tip = b_tip;
     }
     sim.inbox.clear();
+    let bans0 = env.bans;
     let rounds2 = sim.chain.blocks.len() / 2 + 10;
     for _ in 0..rounds2 {
-        pump(&mut sim, &mut env, rng, interval);
+        pump_opt(&mut sim, &mut env, rng, interval, false);
         if !sim.panics.is_empty() {
             break; // the documented long-fork abort ends the process
         }
     }
     let tips_now: Vec<usize> = env.peers.iter().map(|p| p.server.tip + 1).collect();
     if sim.panics.is_empty() {
-        sim.step("Quiescent", json!({"tips": tips_now, "bans": 0}), |_| Ok(()));
+        let must = env.bans == bans0;
+        sim.step("Quiescent", json!({"tips": tips_now, "bans": env.bans - bans0, "must": must, "mustTip": must}), |_| Ok(()));
     }
     let lines = sim.lines;
     let panics = sim.panics.clone();
